@@ -705,7 +705,12 @@ class Translator:
         params = [c for c in node.get('inner', []) if c.get('kind') == 'ParmVarDecl']
         sig = node['type'].get('desugaredQualType') or node['type']['qualType']
         ret_q = self._ret_type(node)
-        is_method = node.get('kind') in ('CXXMethodDecl', 'CXXConstructorDecl', 'CXXConversionDecl') and node.get('storageClass') != 'static'
+        static_ = node.get('storageClass') == 'static'
+        d_ = node
+        while not static_ and d_ is not None and d_.get('previousDecl'):
+            d_ = tu.by_id.get(d_['previousDecl'])       # 'static' is only written on the in-class declaration
+            static_ = d_ is not None and d_.get('storageClass') == 'static'
+        is_method = node.get('kind') in ('CXXMethodDecl', 'CXXConstructorDecl', 'CXXConversionDecl') and not static_
         cparams = []
         info['params'] = []
         if node.get('kind') == 'CXXConstructorDecl':
@@ -1665,6 +1670,11 @@ class FunctionBody:
             cn = self.tr.request(rtu, decl)
             self.calls.add(cn)
             return self.call_user(cn, None, args, decl, n)
+        if ct.c == 'struct wb_mt19937':
+            real = [a for a in args if a.get('kind') != 'CXXDefaultArgExpr']
+            if len(real) == 1:
+                # std::mt19937 engine(seed): the state is the function of the seed that seed() establishes as well
+                return 'wb_mt19937_ctor(%s)' % self.expr(real[0])
         brk('construction of %s' % ct.c, n)
 
     def is_copy_ctor(self, ctor_t, ct):
@@ -1909,7 +1919,8 @@ class FunctionBody:
                    ('double', 'lowest'): '(-DBL_MAX)', ('double', 'infinity'): 'WB_INFINITY',
                    ('double', 'quiet_NaN'): 'WB_QNAN', ('double', 'signaling_NaN'): 'WB_SNAN',
                    ('unsigned int', 'max'): 'UINT_MAX', ('unsigned long', 'max'): 'ULONG_MAX', ('int', 'max'): 'INT_MAX',
-                   ('int', 'min'): 'INT_MIN', ('unsigned int', 'min'): '0u', ('unsigned long', 'min'): '0ul'}
+                   ('int', 'min'): 'INT_MIN', ('unsigned int', 'min'): '0u', ('unsigned long', 'min'): '0ul',
+                   ('unsigned int', 'signaling_NaN'): '0u', ('unsigned int', 'quiet_NaN'): '0u', ('int', 'signaling_NaN'): '0', ('int', 'quiet_NaN'): '0'}
             if (rt.c, name) in tab:
                 return tab[(rt.c, name)]
         brk('call of external function %s/%d' % (name, len(a)), n)
